@@ -55,6 +55,10 @@ class Report:
             self.violations.append(dict(sig=sig, case=case, detail=str(detail)[:500]))
         self.stats["violating_paths"] += 1
 
+    def enough(self):
+        """Stop exploring a job once it has produced plenty of violating paths (the verdict is already decided)."""
+        return self.stats["violating_paths"] >= 25
+
     def inconcl(self, why):
         if len(self.inconclusive) < 50:
             self.inconclusive.append(str(why)[:300])
@@ -86,7 +90,7 @@ def _worker(args):
     modname, job = args
     t0 = time.time()
     try:
-        sys.setrecursionlimit(5000)
+        sys.setrecursionlimit(1200)
         from symx import loader
         if not os.environ.get("VX_NO_LOADER"):
             loader.install()
@@ -99,6 +103,63 @@ def _worker(args):
     except BaseException as e:  # noqa: BLE001 - a crashed job is a harness error, reported as such
         return dict(job=job, crashed="".join(traceback.format_exception(type(e), e, e.__traceback__))[-3000:],
                     wall_s=time.time() - t0)
+
+
+def _child(modname, job, conn):
+    d = _worker((modname, job))
+    try:
+        conn.send(d)
+    except Exception as e:  # noqa: BLE001 - unpicklable result
+        conn.send(dict(job=job, crashed=f"result not transferable: {e!r}", wall_s=0))
+    conn.close()
+
+
+def run_pool(modname, jobs, nproc, job_timeout):
+    """One forked process per job (a dying worker cannot wedge the run), at most nproc at a time."""
+    ctxm = mp.get_context("fork")
+    pending = list(jobs)
+    running = []
+    results = []
+    while pending or running:
+        while pending and len(running) < nproc:
+            j = pending.pop(0)
+            pr, pw = ctxm.Pipe(duplex=False)
+            p = ctxm.Process(target=_child, args=(modname, j, pw), daemon=True)
+            p.start()
+            pw.close()
+            running.append((p, pr, j, time.time()))
+        still = []
+        for p, pr, j, t0 in running:
+            d = None
+            if pr.poll(0):
+                try:
+                    d = pr.recv()
+                except EOFError:
+                    d = dict(job=j, crashed=f"worker died without a result (exit code {p.exitcode})", wall_s=time.time() - t0)
+                p.join(5)
+            elif not p.is_alive():
+                p.join(1)
+                if pr.poll(0):
+                    try:
+                        d = pr.recv()
+                    except EOFError:
+                        d = None
+                if d is None:
+                    d = dict(job=j, crashed=f"worker died without a result (exit code {p.exitcode})", wall_s=time.time() - t0)
+            elif time.time() - t0 > job_timeout:
+                p.kill()
+                p.join(5)
+                d = dict(job=j, crashed=f"job exceeded its wall-clock limit of {job_timeout} s and was killed", wall_s=time.time() - t0)
+            if d is None:
+                still.append((p, pr, j, t0))
+            else:
+                results.append(d)
+                if os.environ.get("VX_VERBOSE"):
+                    print("  job", d["job"]["name"], "crashed" if "crashed" in d else dict(d["stats"]), round(d["wall_s"], 1), flush=True)
+        running = still
+        if running:
+            time.sleep(0.02)
+    return results
 
 
 def trace_functions(fn, rep, limit=400):
@@ -173,13 +234,7 @@ def main(modname, argv=None):
         jobs = [j for j in jobs if a.only in j["name"]]
     # biggest jobs first
     jobs.sort(key=lambda j: -j.get("cost", 1))
-    results = []
-    ctxm = mp.get_context("fork")
-    with ctxm.Pool(min(a.jobs, max(1, len(jobs))), maxtasksperchild=8) as pool:
-        for d in pool.imap_unordered(_worker, [(modname, j) for j in jobs]):
-            results.append(d)
-            if os.environ.get("VX_VERBOSE"):
-                print("  job", d["job"]["name"], "crashed" if "crashed" in d else dict(d["stats"]), round(d["wall_s"], 1), flush=True)
+    results = run_pool(modname, jobs, a.jobs, job_timeout=int(os.environ.get("VX_JOB_TIMEOUT", "3000")))
 
     crashed = [d for d in results if "crashed" in d]
     good = [d for d in results if "crashed" not in d]
